@@ -176,6 +176,84 @@ CLAIMS.update({
         ref="DESIGN.md section 4 C20 and section 13"),
 })
 
+
+CLAIMS.update({
+    "C02": dict(
+        text="Theorems in coq/Props/C02.v (17), for any number of observer / flusher / collector threads, all interleavings of the atomic steps "
+             "and every ordering assignment satisfying sufficient_orderings: every snapshot returned equals the summary of a ticket "
+             "(claim-order) prefix with L0 <= K <= L1 (ticket counts at the collection's call and return markers); what the caller receives "
+             "is |S|, sum S and per bound #{v in S | v <= b} for S = the values of the calls in the prefix; prefixes are closed under each "
+             "thread's program order; release on the publish and acquire on the wait exit are each necessary in the model (refutation "
+             "paths c02_release_needed / c02_acquire_needed); sufficient_orderings source_orderings is re-proved on every run from orderings "
+             "re-read from src/histogram.rs (coq/gen/HistOrderings.v) and the same orderings are demanded on the implementation's events. "
+             "Tie: the real Histogram is run one atomic step at a time under the sync shim on generated schedules (targeted preemption at "
+             "claim / publish / flip); each trace is validated event by event by the executable model inside Coq (every accepted event is "
+             "a stutter or one step of the relation, hexec_sound) and an executable spec that decodes S from power-of-two sums is "
+             "evaluated on the call/return markers.",
+        note="Operational intra-call reordering model of the memory orderings; its relation to the axiomatic Rust/C++ memory model is assumed "
+             "(a weakened ordering cannot be exhibited on x86: reported as no-failing-input-found with the model-level schedule as replay). "
+             "Integer (power-of-two) observation values here; the bit-exact binary64 statement is C08's. HistogramVec / Registry::gather "
+             "reach the same HistogramCore::proto (by inspection). No axioms beyond kernel primitives.",
+        ref="DESIGN.md sections 3, 4 C02 and 13"),
+    "C03": dict(
+        text="Theorems in coq/Props/C03.v (14): collections ordered in real time return growing ticket prefixes and value sets; every observe / "
+             "flush call is exactly one ticket carrying all its values, so a flushed batch is in a snapshot entirely or not at all; at "
+             "quiescence every shard cell, a collection, get_sample_count and get_sample_sum equal the totals of all observations; the "
+             "invariant holds after any number of flips with residue carried forward (third-collect statement); the wait-loop exit is "
+             "enabled iff all pre-flip claims have published, and stays enabled (c03_wait_exact, c03_wait_exit_stable). Tie as C02 with "
+             ">= 3 collections over two collector threads, multi-observation flushes, a final quiescent collect plus the two read calls, "
+             "and a watchdog under which a hung collector is a violation.",
+        note="Liveness of the spin (a weak compare-exchange eventually stops failing spuriously, fair scheduling) is runtime and not claimed. "
+             "Memory-model caveat as C02. A stale relaxed get_sample_count on non-multi-copy-atomic hardware cannot be exhibited by the model.",
+        ref="DESIGN.md section 4 C03 and 13"),
+    "C10": dict(
+        text="Theorems in coq/Props/C10.v (23, closed under the global context), for all interleavings and any number of threads: the vector "
+             "model is linearizable to a sequential map from label values to (child id, value) with linearisation step = lookup hit / "
+             "insert / remove / clear / read-lock acquisition of collect (key set) / per-child load / fetch_add through the handle, each "
+             "inside its call window, real-time order respected (c10_lin, c10_real_time); lock word consistent and map accessed only under "
+             "the lock; same child on racing first requests; no lost or double-counted update; no duplicate keys in any collection; removed "
+             "key not collected; handle usable after removal; recreated child fresh and zero; sequential histories = one-thread instance. "
+             "The LITERAL property (collect as one atomic action returning keys AND values) is refuted by a real trace "
+             "(c10_strict_refuted, exact search) = known finding C10-collect-values-not-snapshot; the check evaluates the strict spec and "
+             "reports cases in that class as KNOWN-FINDING, anything else as VIOLATION. Tie: every event (lock attempts, releases, child "
+             "atomics, markers) of scheduled runs of the real IntCounterVec is validated by vexec (proved sound into the relational model); "
+             "strict and relaxed specs are evaluated on the same traces.",
+        note="Keys are label-value tuples (hash collisions are C05's). try_read fails iff a writer holds the lock, try_write iff a writer or "
+             "readers do; HashMap operations are silent steps between lock and unlock; one sequentially consistent memory for lock word and "
+             "cells. The harness drives with_label_values / remove_label_values (get_metric_with / remove share the code after hashing). "
+             "Linearisation search budget 30 000 nodes: exhausted = pass, counted in the evidence. Data races inside HashMap are excluded by "
+             "Rust's type system, not by the model.",
+        ref="DESIGN.md section 4 C10 and 13"),
+    "C16": dict(
+        text="Theorems in coq/Props/C16.v (15): the accessor interface the shared source uses (67 operations over ten types) has two instances "
+             "- plain (plain_model.rs) and pb (proto_model.rs + proto_ext.rs: Option scalars, MessageField with default-instance deref, enum "
+             "with fallback) - and the getter view is a homomorphism pb -> plain (69 laws); gather, check_metric_family and TextEncoder are "
+             "written once for any instance and are natural in homomorphisms, hence c16_same: for all collectors, prefix, common labels and "
+             "number formatting the gathered structures are getter-equal and the text bytes / errors identical; c16_defaults: the table of "
+             "34 reads of unset fields agrees; the world model's gather / encoder are the wm instance of the same generic code. Tie: the "
+             "harness is built with default features and with --no-default-features; the same API histories, family lists and gathered "
+             "families run on both binaries, each is compared with the model in Coq, and the two are compared with each other byte for byte.",
+        note="rust-protobuf's runtime and the generated proto_model.rs are modelled through their accessor behaviour, not verified. Field "
+             "presence (has_*) exists only in the protobuf build and is outside the property. Family name/help/type and LabelPair/Bucket/"
+             "Quantile fields are never left unset by the harness builder: those defaults are covered at model level only. Mixed kinds "
+             "under one name (C14) are excluded from the generator. No axioms (kernel primitives only).",
+        ref="DESIGN.md section 4 C16 and 13"),
+    "C19": dict(
+        text="Theorems in coq/Props/C19.v (22, closed under the global context): for every well-formed make_static_metric! / "
+             "make_auto_flush_static_metric! declaration, every field / get(enum) / try_get(str) path (and any mix) denotes the child whose "
+             "value for label i is the declared string of step i, for every permutation of the backing vector's label names (via C05's "
+             "map-form lemma); try_get is None exactly for undeclared strings; get is the variant's field; any struct-injective offset "
+             "layout makes get_local reach the leaf of the path; after a final flush (any interleaving of sub-struct / automatic flushes) "
+             "every child holds exactly the amounts addressed to it, unaddressed children hold 0; delivered + buffered = addressed at any "
+             "moment. Tie: declarations generated from the grammar (1-4 labels x 1-4 values, inline / enum / renamed values, 8 static and "
+             "3 auto-flush types) are compiled with the REAL proc macros, every accessor path is driven with a distinct power of two on "
+             "vectors with permuted label names, and model and executable spec are evaluated in Coq on the collected children.",
+        note="Proc-macro expansion and rustc's checking of generated items are observed on the compiled batches only; the MaybeUninit offset "
+             "layout of the auto-flush builder is a runtime fact (the theorem needs only injectivity per struct). Child identity is the "
+             "label-value tuple (FNV collisions are C05's). No theorem links spec_c19 to the model (both are evaluated every run).",
+        ref="DESIGN.md section 4 C19 and 13"),
+})
+
 NOT_YET = "the technique applies (see DESIGN.md section 4) but the check is not finished, so the property is not claimed"
 
 # properties not claimed for a reason other than "not finished"
